@@ -183,7 +183,7 @@ def run_schedule(prefix, npart, rseed, restart=(), hostile=False,
     return trace, status, sched.events
 
 
-def hostile_draws(sched, begin, end, fresh):
+def hostile_draws(sched, begin, end, fresh, streak=0):
     """a random source that is out to collide: every draw of a participant
     first names the address ranges other participants hold right now (each
     once per allocation), then values nobody has used.  Any sequence is a
@@ -206,16 +206,24 @@ def hostile_draws(sched, begin, end, fresh):
             elif op == end and p != me:
                 live.pop(p, None)
         t = tried.setdefault((me, mine), set())
+        # an unlucky streak first: so many draws in a row name ranges that
+        # are held (on a crowded address map most draws do)
+        n = counts.get((me, mine), 0)
+        counts[(me, mine)] = n + 1
+        if n < streak and live:
+            held = sorted(live.values())
+            return held[n % len(held)]
         for addr in sorted(live.values()):
             if addr not in t:
                 t.add(addr)
                 return addr
         return next(fresh)
+    counts = {}
     return draw
 
 
 def run_fmmu_schedule(prefix, npart, rseed, rounds=2, hostile=False,
-                      director=None):
+                      director=None, streak=0):
     """participants create / use / remove FMMULocks on one address map; the
     random draws come from a small set that spans several bitmap bytes"""
     import os
@@ -242,7 +250,8 @@ def run_fmmu_schedule(prefix, npart, rseed, rounds=2, hostile=False,
         # fresh values: the creator's byte first, then the next byte
         lockmod.randrange = hostile_draws(
             sched, "alloc", "release",
-            [2, 3, 9, 4, 5, 10, 6, 7, 11] + list(range(12, 500)))
+            [2, 3, 9, 4, 5, 10, 6, 7, 11] + list(range(12, 500)),
+            streak=streak)
 
     def participant(pid):
         sched.pids[threading.get_ident()] = pid
@@ -335,6 +344,15 @@ def inside_leg(res, sigs, shard, of):
             seen.add((n, choices))
             analyse_fmmu(choices, trace, status, events, n, res, sigs,
                          "fmmu_inside")
+        # the same with an unlucky streak of draws in front of every
+        # allocation
+        n, spec = specs[g % len(specs)]
+        k = [99, 100, 101, 150, 30][g % 5]
+        trace, status, events = run_fmmu_schedule(
+            (), n, 0, hostile=True, director=segments(spec), streak=k)
+        res.count("schedules_with_an_unlucky_streak_of_draws")
+        analyse_fmmu(tuple(c for c, _ in trace), trace, status, events, n,
+                     res, sigs, "fmmu_streak")
 
 
 def judge_fmmu(events):
